@@ -12,8 +12,8 @@
 
 #define MAXJ 16
 #define MAXOPS 6
-enum { OP_ADD, OP_ADD_POSTING, OP_TRYADD, OP_TRYADD_POSTING, OP_JOIN, OP_RESIZE1, OP_RESIZE2, OP_RESIZE3, NOPS };
-static const char* OPN[] = {"add", "add(posting)", "tryAdd", "tryAdd(posting)", "joinJobs", "resize1", "resize2", "resize3"};
+enum { OP_ADD, OP_ADD_POSTING, OP_TRYADD, OP_TRYADD_POSTING, OP_JOIN, OP_RESIZE1, OP_RESIZE2, OP_RESIZE3, OP_ADD_BPOSTING, NOPS };
+static const char* OPN[] = {"add", "add(posting)", "tryAdd", "tryAdd(posting)", "joinJobs", "resize1", "resize2", "resize3", "add(posting by a blocking add)"};
 
 typedef struct { int id, posting, child; } jobarg_t;
 static POOL_ctx* g_pool;
@@ -27,7 +27,8 @@ VX_HARNESS_SHARED static void job_fn(void* a) {
     jobarg_t* j = (jobarg_t*)a;
     if (++g_exec[j->id] > 1) { vx_fail("job executed more than once"); }
     if (g_acc[j->id] == 0) vx_fail("job ran although its post was refused");
-    if (j->posting) { g_acc[j->child] = 2; int r = POOL_tryAdd(g_pool, job_fn, &g_job[j->child]); g_acc[j->child] = r ? 1 : 0; }
+    if (j->posting == 2) { g_acc[j->child] = 2; POOL_add(g_pool, job_fn, &g_job[j->child]); if (g_acc[j->child] == 2) g_acc[j->child] = 1; }
+    else if (j->posting) { g_acc[j->child] = 2; int r = POOL_tryAdd(g_pool, job_fn, &g_job[j->child]); g_acc[j->child] = r ? 1 : 0; }
     g_done[j->id] = 1;
 }
 
@@ -41,7 +42,7 @@ VX_HARNESS_SHARED static void run_client(int who) {
     for (g_pc[who] = 0; g_pc[who] < g_nops[who]; g_pc[who]++) {
         int op = g_prog[who][g_pc[who]];
         switch (op) {
-        case OP_ADD: case OP_ADD_POSTING: { int j = new_job(op == OP_ADD_POSTING); g_acc[j] = 2; POOL_add(g_pool, job_fn, &g_job[j]); if (g_acc[j] == 2) g_acc[j] = 1; break; }
+        case OP_ADD: case OP_ADD_POSTING: case OP_ADD_BPOSTING: { int j = new_job(op == OP_ADD_POSTING ? 1 : op == OP_ADD_BPOSTING ? 2 : 0); g_acc[j] = 2; POOL_add(g_pool, job_fn, &g_job[j]); if (g_acc[j] == 2) g_acc[j] = 1; break; }
         case OP_TRYADD: case OP_TRYADD_POSTING: { int j = new_job(op == OP_TRYADD_POSTING); g_acc[j] = 2; int r = POOL_tryAdd(g_pool, job_fn, &g_job[j]); g_acc[j] = r ? 1 : 0; break; }
         case OP_JOIN: {
             int before[MAXJ]; for (int j = 0; j < MAXJ; j++) before[j] = (g_acc[j] == 1);
@@ -106,6 +107,12 @@ VX_HARNESS_SHARED static void body(void) {
         int posting = 0;
         for (int c = 0; c < 2; c++) for (int i = 0; i < g_nops[c]; i++) if (g_prog[c][i] == OP_ADD_POSTING || g_prog[c][i] == OP_TRYADD_POSTING) posting = 1;
         if (posting && !g_finalJoin) return;
+        /* one job may post its child with the blocking call: on an ideal pool of >= 2 threads that is never resized to 1 the other
+         * thread(s) run only jobs that end, so capacity for the child always appears and the program cannot deadlock; any deadlock is
+         * the implementation's (a blocked post that is not woken when one of several busy workers becomes free) */
+        int bposting = 0, shrink = 0;
+        for (int c = 0; c < 2; c++) for (int i = 0; i < g_nops[c]; i++) { if (g_prog[c][i] == OP_ADD_BPOSTING) bposting++; if (g_prog[c][i] == OP_RESIZE1) shrink = 1; }
+        if (bposting && (bposting > 1 || shrink || g_threads < 2 || !g_finalJoin)) return;
     }
 
     vs_config_t cfg; memset(&cfg, 0, sizeof cfg);
